@@ -287,7 +287,7 @@ pub trait RollingValidReg<T: IsNone>: Vec1View<T> {
                     let resid_sum = sum_xx - 2. * alpha * sum - 2. * beta * sum_xt
                         + alpha * alpha * n_f64
                         + 2. * alpha * beta * sum_t
-                        + beta * beta * sum_tt;
+                        + beta * beta * sum_tt / n_f64;
                     resid_sum / n_f64
                 } else {
                     f64::NAN
